@@ -182,8 +182,15 @@ def check(program: Program, run: Run) -> None:
                     continue
                 passes = any(k.arg == "wrapper_cls" for k in n.keywords) or len(n.args) > 1
                 arg = ast.unparse(n.args[0])
-                if name in ("limit", "offset", "slice", "fetch_next", "groupby", "orderby"):
+                PAG = ("limit", "offset", "slice", "fetch_next", "groupby", "orderby")
+                if name in PAG:
                     continue   # integers / order keys: strings become Fields before this point, no string literal is produced
+                if name.startswith("_") and not name.startswith("__"):
+                    # a private helper reached only from those methods (e.g. `_row_count(value)`) carries the same values
+                    callers = {m2 for k2 in c.mro for m2, f2 in k2.methods.items() if m2 != name and any(
+                        isinstance(x, ast.Call) and isinstance(x.func, ast.Attribute) and x.func.attr == name for x in ast.walk(f2.node))}
+                    if callers and callers <= set(PAG):
+                        continue
                 npos += 1
                 ok = passes or base_consults
                 run.ob("C05/R2 value position uses the dialect's wrapper class", f"{f.qualname}({arg})", ok, where=f.loc(n))
